@@ -307,3 +307,17 @@ UPDATE_SIGN = {
                  "used_capacity_backhaul": {"used_capacity_backhaul": P, "demand_backhaul": P}},
 }
 UPDATE_SIGN["SPCTSPEnv"] = UPDATE_SIGN["PCTSPEnv"]
+
+# ------------------------------------------------------------------------------------------
+# C06.g -- instance-data sanity assertions a checker may make (admit form).  Any other
+# conjunctive assertion must instantiate a constraint of the env's CHECK row.
+SANITY = [
+    Lit("distances-nonneg", "cmp", big={"locs"}, small=set(), strict=False, const=0),
+    Lit("time-windows-nonneg", "cmp", big={"time_windows"}, small=set(), strict=False, const=0),
+    Lit("durations-nonneg", "cmp", big={"durations"}, small=set(), strict=False, const=0),
+    Lit("service-time-nonneg", "cmp", big={"service_time"}, small=set(), strict=False, const=0),
+    Lit("distance-limit-nonneg", "cmp", big={"distance_limit"}, small=set(), strict=False, const=0),
+    Lit("window-ordered", "cmp", big={"time_windows"}, small={"time_windows"}, strict=True, const=0),
+    Lit("can-return-to-depot", "cmp", big={"time_windows"}, small={"time_windows", "locs"}, strict=False, const=0),
+]
+SANITY[-1].extra_small = {"durations", "service_time", "speed"}
